@@ -112,12 +112,12 @@ def c20(tier, seed):
     return session.run_property("C20", tier, seed, plan)
 
 
-C07_PREDS = ["C07_WriteRoute", "C07_NoSTUNWrite", "C07_ReadOnlyKnown", "C07_DataInert", "C07_ConnCounters", "C07_PairCounters"]
+C07_PREDS = ["C07_WriteRoute", "C07_StunShapedConsistent", "C07_NoSTUNWrite", "C07_ReadOnlyKnown", "C07_DataInert", "C07_ConnCounters", "C07_PairCounters"]
 
 
 def c07(tier, seed):
     w = n(tier, 200, 3000)
-    runs = [dict(cfg=c, traces=w, drain=True, notime=True, preds=C07_PREDS) for c in ("pdata", "pdata21", "pdatanat")]
+    runs = [dict(cfg=c, traces=w, drain=True, notime=True, preds=C07_PREDS) for c in ("pdata", "pdata21", "pdatanat", "pdatatcp")]
     runs.append(dict(cfg="pdata", traces=n(tier, 100, 1500), preds=C07_PREDS))
     plan = {"runs": runs, "mc": [("pdata", ["DataOnlyOnValid", "SelListed"], None)], "assumptions": SESSION_ASSUME + [
         "payload sizes 5..8192 bytes; the application reader runs concurrently and is drained at every step"]}
